@@ -34,6 +34,8 @@ type verifLifeDev struct {
 	closes       atomic.Int32
 	failActivate atomic.Bool
 	failQueues   atomic.Bool
+	maxQueues    int          // the device opens at most this many queues, whatever it is asked for
+	handed       atomic.Int32 // queues handed out so far (ledger)
 }
 
 func (d *verifLifeDev) Read() ([]tio.Packet, error) { <-d.closedCh; return nil, io.EOF }
@@ -56,10 +58,14 @@ func (d *verifLifeDev) Queues(n int) ([]tio.Queue, error) {
 	if d.failQueues.Load() {
 		return nil, errors.New("verif: queue failed to open")
 	}
+	if d.maxQueues > 0 && n > d.maxQueues {
+		n = d.maxQueues // allowed by the Device contract: activate sizes the readers to what it got
+	}
 	q := make([]tio.Queue, n)
 	for i := range q {
 		q[i] = d
 	}
+	d.handed.Add(int32(n))
 	return q, nil
 }
 
@@ -69,11 +75,15 @@ type verifLifeConn struct {
 	closed   atomic.Bool
 	closes   atomic.Int32
 	rebinds  atomic.Int32
+	multi    bool
+	readers  atomic.Int32 // ListenOut calls in progress
 }
 
 func (c *verifLifeConn) Rebind() error                      { c.rebinds.Add(1); return nil }
 func (c *verifLifeConn) LocalAddr() (netip.AddrPort, error) { return netip.AddrPort{}, nil }
 func (c *verifLifeConn) ListenOut(_ udp.EncReader, _ func()) error {
+	c.readers.Add(1)
+	defer c.readers.Add(-1)
 	<-c.closedCh
 	return os.ErrClosed
 }
@@ -82,7 +92,7 @@ func (c *verifLifeConn) WriteBatch(bufs [][]byte, _ []netip.AddrPort) (int, erro
 	return len(bufs), nil
 }
 func (c *verifLifeConn) ReloadConfig(_ *config.C)      {}
-func (c *verifLifeConn) SupportsMultipleReaders() bool { return true }
+func (c *verifLifeConn) SupportsMultipleReaders() bool { return c.multi }
 func (c *verifLifeConn) Close() error {
 	c.closes.Add(1)
 	c.once.Do(func() { c.closed.Store(true); close(c.closedCh) })
@@ -95,9 +105,13 @@ type VerifLifeCtl struct {
 	conns []*verifLifeConn
 }
 
-func VerifLifeNew(routines int) *VerifLifeCtl {
+// VerifLifeNew builds a Control the way Main does for `routines` configured routines: one udp listener per routine,
+// all of them handed to the interface as its writers. The device opens at most `queues` queues (0: as many as asked)
+// and the udp backend can be read by several goroutines or not. Every listener is kept in a ledger of its own,
+// independent of what the interface still references.
+func VerifLifeNew(routines, queues int, multi bool) *VerifLifeCtl {
 	l := slog.New(slog.DiscardHandler)
-	dev := &verifLifeDev{closedCh: make(chan struct{})}
+	dev := &verifLifeDev{closedCh: make(chan struct{}), maxQueues: queues}
 	ctx, cancel := context.WithCancel(context.Background())
 	myVpnNet := netip.MustParsePrefix("10.128.0.1/16")
 	nt := new(bart.Lite)
@@ -110,7 +124,7 @@ func VerifLifeNew(routines int) *VerifLifeCtl {
 	v := &VerifLifeCtl{dev: dev}
 	writers := make([]udp.Conn, routines)
 	for i := range writers {
-		cn := &verifLifeConn{closedCh: make(chan struct{})}
+		cn := &verifLifeConn{closedCh: make(chan struct{}), multi: multi}
 		v.conns = append(v.conns, cn)
 		writers[i] = cn
 	}
@@ -168,6 +182,26 @@ func (v *VerifLifeCtl) UDPCloses() int {
 	return n
 }
 func (v *VerifLifeCtl) Rebinds() int { return int(v.conns[0].rebinds.Load()) }
+
+// the ledger: listeners ever opened, those still open, device queues handed out, readers running now
+func (v *VerifLifeCtl) UDPOpened() int { return len(v.conns) }
+func (v *VerifLifeCtl) UDPLeftOpen() int {
+	n := 0
+	for _, c := range v.conns {
+		if !c.closed.Load() {
+			n++
+		}
+	}
+	return n
+}
+func (v *VerifLifeCtl) QueuesHanded() int { return int(v.dev.handed.Load()) }
+func (v *VerifLifeCtl) Readers() int {
+	n := 0
+	for _, c := range v.conns {
+		n += int(c.readers.Load())
+	}
+	return n
+}
 
 // Wait reports whether Control.Wait returned within d.
 func (v *VerifLifeCtl) Wait(d time.Duration) bool {
